@@ -3,7 +3,6 @@ use std::char::DecodeUtf16Error;
 use std::collections::{BTreeMap, BTreeSet, HashMap, HashSet, LinkedList};
 use std::hash::Hash;
 use std::marker::PhantomData;
-use std::mem::MaybeUninit;
 use std::rc::Rc;
 use std::sync::Arc;
 use std::time::Duration;
@@ -284,18 +283,27 @@ impl BinaryDeserializer for Bytes {
 impl<T: BinaryDeserializer, const L: usize> BinaryDeserializer for [T; L] {
     fn deserialize(context: &mut DeserializationContext<'_>) -> Result<Self> {
         let empty: [T; 0] = [];
-        if cast!(empty, [u8; 0]).is_ok() {
-            let length = context.read_var_u32()?; // NOTE: this is inconsistent with the generic case, but this way it is compatible with the Scala version's Chunk serializer
-            let bytes = context.read_bytes(length as usize)?;
-            Ok(unsafe { std::mem::transmute_copy::<_, [T; L]>(&bytes) })
-        } else {
-            let mut array: [MaybeUninit<T>; L] = unsafe { MaybeUninit::uninit().assume_init() };
-            for (target, item) in array.iter_mut().zip(deserialize_iterator(context)) {
-                *target = MaybeUninit::new(item?);
+        let items: Vec<T> = if cast!(empty, [u8; 0]).is_ok() {
+            let length = context.read_var_u32()? as usize; // NOTE: this is inconsistent with the generic case, but this way it is compatible with the Scala version's Chunk serializer
+            if length != L {
+                return Err(Error::DeserializationFailure(format!(
+                    "Failed to deserialize array: expected {L} bytes, got {length}"
+                )));
             }
-            let array: [T; L] = unsafe { std::mem::transmute_copy(&array) };
-            Ok(array)
-        }
+            let mut items = Vec::with_capacity(L);
+            for _ in 0..L {
+                items.push(T::deserialize(context)?);
+            }
+            items
+        } else {
+            deserialize_iterator(context).collect::<Result<Vec<T>>>()?
+        };
+        let count = items.len();
+        items.try_into().map_err(|_| {
+            Error::DeserializationFailure(format!(
+                "Failed to deserialize array: expected {L} elements, got {count}"
+            ))
+        })
     }
 }
 
